@@ -28,6 +28,8 @@ EXPLANATION = (
 )
 TECHNIQUE += '; finite-domain constant evaluation of Shell.nbasis; sibling predicate agreement'
 EXPLANATION += ' R6 now evaluates Shell.nbasis over 179 (angmoms, kinds) combinations against (l+1)(l+2)/2 / 2l+1 / TypeError; R3 also requires occsa, occsb and spinpol to decide the restricted heuristic with one and the same predicate (helper calls inlined).'
+TECHNIQUE += '; evaluation of the MolecularOrbitals accessors on abstract instances (symbolic arrays / constant occupation patterns)'
+EXPLANATION += ' R2-R5 no longer match source templates: the property getters and setters of MolecularOrbitals are interpreted (iodalint.accessors, whitelisted statements and numpy index/ring operations only) on abstract instances -- symbolic occupation / coefficient / energy arrays for slices, formulas and read-back of assignments over orbital counts (2,1),(1,2),(2,0),(0,2),(1,1),(3,3); nine constant occupation patterns (integer, fractional, near-integer) for the heuristic; all 64 two-step occsa/occsb assignment sequences over four vectors -- and compared with the documented semantics; cached properties are rejected.'
 TRUSTED = ["CPython ast parser", "attrs validators run on construction and assignment"]
 
 SPIN_ATTRS = ("occs", "coeffs", "energies", "irreps")
@@ -242,74 +244,18 @@ def run(ctx):
 
     check_validate_shape(ctx, "R1")
 
-    # ------------------------------------------------------------------ R2
+    # ------------------------------------------------------------------ R2 .. R5
+    # decided by evaluating the accessors themselves on abstract instances (iodalint.accessors): symbolic arrays for
+    # slices / formulas / read-back of assignments, constant occupation patterns for the integer-vs-fractional
+    # heuristic.  No source template is matched, so the accessors may be rewritten freely.
     ctx.rule("R2", "generalized orbitals refuse spin-resolved access", "two-component orbitals silently return a meaningless alpha/beta slice")
-    guarded = [f"{a}{s}" for a in SPIN_ATTRS for s in "ab"] + ["spinpol"]
-    for name in guarded:
-        fs = [("getter", mo.getters.get(name))]
-        if name in mo.setters:
-            fs.append(("setter", mo.setters[name]))
-        for kind, f in fs:
-            if f is None:
-                ctx.violate("R2", f"MolecularOrbitals.{name} {kind} missing", relpath=mo.module.relpath, function=mo.qualname, construct=f"{name} {kind}")
-                continue
-            body = [s for s in f.body if not (isinstance(s, ast.Expr) and isinstance(s.value, ast.Constant))]
-            g = body[0] if body else None
-            okk = isinstance(g, ast.If) and src_of(g.test).replace('"', "'") == "self.kind == 'generalized'" and g.body and isinstance(g.body[0], ast.Raise) and raises_class(g.body[0]) == "NotImplementedError"
-            if okk:
-                ctx.ok("R2", f"{name} {kind}: first statement raises NotImplementedError for generalized", f"{f.module.relpath}:{f.lineno}", sample=(name in ("occsa", "spinpol")))
-            else:
-                ctx.violate("R2", f"MolecularOrbitals.{name} {kind} does not begin with the generalized => NotImplementedError guard", f, g if g is not None else f.node, construct=f"{name} {kind} guard")
+    ctx.rule("R3", "alpha/beta views are the documented slices / formulas and sum to the stored occupations", "alpha and beta views overlap, swap, split at the wrong index, or do not add up to occs")
+    ctx.rule("R4", "assigning alpha or beta occupations reads back as assigned and leaves the other spin unchanged", "assigning one spin changes the other, or the stored sum/difference disagree")
+    ctx.rule("R5", "derived counts", "nelec / spinpol / norb disagree with the stored occupations")
+    from .c12_semantics import check_orbital_semantics
 
-    # ------------------------------------------------------------------ R3
-    ctx.rule("R3", "alpha/beta views are complementary slices at norba", "alpha and beta views overlap, swap, or split at the wrong index")
-    for a in SPIN_ATTRS:
-        ga, gb = mo.getters.get(a + "a"), mo.getters.get(a + "b")
-        if ga is None or gb is None:
-            continue
-        ra = [n for n in ga.own_nodes() if isinstance(n, ast.Return)]
-        rb = [n for n in gb.own_nodes() if isinstance(n, ast.Return)]
-        la, lb = src_of(ra[-1].value), src_of(rb[-1].value)
-        if a == "coeffs":
-            wa, wb = "self.coeffs[:, :self.norba]", "self.coeffs[:, self.norba:]"
-        else:
-            wa, wb = f"self.{a}[:self.norba]", f"self.{a}[self.norba:]"
-        if la == wa and lb == wb:
-            ctx.ok("R3", f"{a}: alpha = {wa}, beta = {wb}", f"{ga.module.relpath}:{ra[-1].lineno}")
-        else:
-            ctx.violate("R3", f"unrestricted views of {a} are `{la}` / `{lb}`, expected `{wa}` / `{wb}`", ga if la != wa else gb, (ra if la != wa else rb)[-1])
-        # None propagation and the restricted branch
-        for g, rets, side in ((ga, ra, "a"), (gb, rb, "b")):
-            txt = src_of(g.node).replace('"', "'")
-            none_ok = f"if self.{a} is None:" in txt and "return None" in txt
-            if not none_ok:
-                ctx.violate("R3", f"{a}{side} does not return None when {a} is unset", g, g.node, construct=f"{a}{side} None propagation")
-            if a != "occs":
-                restr = [r for r in rets if src_of(r.value) == f"self.{a}"]
-                in_restricted = False
-                for st in walk_stmts(g.body):
-                    if isinstance(st, ast.If) and src_of(st.test).replace('"', "'") == "self.kind == 'restricted'" and any(r in st.body for r in restr):
-                        in_restricted = True
-                if in_restricted:
-                    ctx.ok("R3", f"{a}{side}: restricted orbitals share self.{a}", f"{g.module.relpath}:{g.lineno}", sample=False)
-                else:
-                    ctx.violate("R3", f"{a}{side} does not return the shared array for restricted orbitals", g, g.node, construct=f"{a}{side} restricted branch")
-    # restricted occsa/occsb derivations
-    for side, sign in (("a", "+"), ("b", "-")):
-        g = mo.getters.get("occs" + side)
-        txt = src_of(g.node)
-        want = f"(self.occs {sign} self.occs_aminusb) / 2"
-        if want in txt:
-            ctx.ok("R3", f"occs{side} with occs_aminusb: {want}", f"{g.module.relpath}:{g.lineno}")
-        else:
-            ctx.violate("R3", f"occs{side} is not derived as {want} when occs_aminusb is set", g, g.node, construct=f"occs{side} aminusb formula")
-    ga, gb = mo.getters["occsa"], mo.getters["occsb"]
-    ta, tb = src_of(ga.node), src_of(gb.node)
-    if "np.clip(self.occs, 0, 1)" in ta and "self.occs - np.clip(self.occs, 0, 1)" in tb and ta.count("self.occs / 2") == 1 and tb.count("self.occs / 2") == 1:
-        ctx.ok("R3", "heuristic branches: alpha = clip(occs,0,1), beta = occs - clip(occs,0,1); fractional: occs/2 each (sum = occs)", f"{ga.module.relpath}:{ga.lineno}")
-    else:
-        ctx.violate("R3", "restricted occsa/occsb heuristic branches no longer sum to occs (clip / occs - clip / occs/2)", ga, ga.node, construct="occs heuristic branches")
-
+    check_orbital_semantics(ctx)
+    ga = mo.getters["occsa"]
     # sibling agreement: the integer-occupation heuristic is written three times (occsa, occsb, spinpol); the copies
     # must decide with the same predicate (one level of helper calls is inlined before comparing)
     preds = {}
@@ -333,55 +279,15 @@ def run(ctx):
                 if (ref is not None and t != ref) or (ref is None and nm != "spinpol"):
                     ctx.violate("R3", f"{nm} decides the restricted heuristic with `{t[:70]}` while its siblings use a different predicate ({ {k: v[:40] for k, v in texts.items() if k != nm} }): occsa/occsb/spinpol then disagree for some occupations", g, node)
 
-    # ------------------------------------------------------------------ R4
-    ctx.rule("R4", "alpha/beta occupation setters keep occs and occs_aminusb consistent", "assigning one spin changes the other, or the stored sum/difference disagree")
-    for side, other in (("a", "b"), ("b", "a")):
-        s_ = mo.setters.get("occs" + side)
-        if s_ is None:
-            ctx.violate("R4", f"occs{side} has no setter", relpath=mo.module.relpath, function=mo.qualname, construct=f"occs{side} setter")
-            continue
-        txt = src_of(s_.node)
-        arg = s_.posparams[1]
-        need = [
-            f"occs{other} = np.array(self.occs{other})",
-            "self.occs = occsa + occsb",
-            "self.occs_aminusb = occsa - occsb",
-            f"self.occs = occs{side}",
-            ("self.occs_aminusb = occsa.copy()" if side == "a" else "self.occs_aminusb = -occsb"),
-            (f"self.occs[:self.norba] = {arg}" if side == "a" else f"self.occs[self.norba:] = {arg}"),
-        ]
-        miss = [n for n in need if n not in txt]
-        if miss:
-            ctx.violate("R4", f"occs{side} setter deviates from the template; missing `{miss[0]}`", s_, s_.node, construct=f"occs{side} setter: {miss[0]}")
-        else:
-            ctx.ok("R4", f"occs{side} setter: restricted -> occs = a+b, occs_aminusb = a-b (other spin from its getter); unrestricted -> complementary slice", f"{s_.module.relpath}:{s_.lineno}")
-
-    # ------------------------------------------------------------------ R5
-    ctx.rule("R5", "derived counts", "nelec / spinpol / norb disagree with the stored occupations")
-    g = mo.getters["nelec"]
-    rets = [src_of(n.value) for n in g.own_nodes() if isinstance(n, ast.Return)]
-    if rets == ["None", "self.occs.sum()"]:
-        ctx.ok("R5", "nelec = occs.sum() (None without occupations)", f"{g.module.relpath}:{g.lineno}")
-    else:
-        ctx.violate("R5", f"nelec returns {rets}, expected occs.sum()", g, g.node, construct="nelec returns")
-    g = mo.getters["spinpol"]
-    rets = [src_of(n.value) for n in g.own_nodes() if isinstance(n, ast.Return)]
-    if rets and rets[-1] == "abs(self.occsa.sum() - self.occsb.sum())" and "self.occs_aminusb.sum()" in rets:
-        ctx.ok("R5", "spinpol: |sum(occsa) - sum(occsb)| (unrestricted), occs_aminusb.sum() when given", f"{g.module.relpath}:{g.lineno}")
-    else:
-        ctx.violate("R5", f"spinpol returns {rets[-2:]}, expected abs(occsa.sum() - occsb.sum()) for unrestricted orbitals", g, g.node, construct="spinpol returns")
-    g = mo.getters["norb"]
-    txt = src_of(g.node).replace('"', "'")
-    if "if self.kind == 'restricted':\n        return self.norba" in txt and "if self.kind == 'unrestricted':\n        return self.norba + self.norbb" in txt:
-        ctx.ok("R5", "norb = norba (restricted) / norba + norbb (unrestricted)", f"{g.module.relpath}:{g.lineno}")
-    else:
-        ctx.violate("R5", "norb is no longer norba / norba + norbb", g, g.node, construct="norb returns")
-
     # ------------------------------------------------------------------ R6
     ctx.rule("R6", "Shell.nbasis follows angular momenta and kinds", "a wrong function count mis-sizes every matrix built from the basis")
     nb = sh.getters.get("nbasis")
     if nb is None:
         raise AnalysisError("Shell.nbasis not found")
+    for cinfo_ in (sh, prog.cls("iodata.basis.MolecularBasis"), mo):
+        for gname, gf in cinfo_.getters.items():
+            if getattr(gf, "cached_property", False):
+                ctx.violate("R6" if cinfo_ is not mo else "R5", f"{cinfo_.name}.{gname} is a cached property: the value is computed once and not recomputed when the fields it derives from are assigned or changed in place (the Molden reader switches `kinds` after construction)", gf, gf.node, construct=f"cached property {gname}")
     decided = _nbasis_by_evaluation(ctx, prog, nb)
     loop = [n for n in nb.own_nodes() if isinstance(n, ast.For)]
     if decided:
